@@ -363,9 +363,10 @@ static inline uint8_t *gb_place(gbuf_t *g, size_t len, int place, unsigned off, 
     } else {
         uint8_t *p = g->data + CANARY + 8 + (off & 7), *b = g->data + PAGE, *q;
         /* every other time: laid across the boundary between the first two data pages, same alignment class */
-        g->toggle ^= 1;
+        g->toggle = (g->toggle + 1) % 3;
         q = b - 8 * ((len / 2) / 8 + 1) + (off & 7);
-        if (g->toggle && g->data_pages >= 2 && len >= 2 && q >= g->data + CANARY && q < b && q + len > b && q + len + CANARY <= end) p = q;
+        if (g->toggle == 2 && len + CANARY <= PAGE && (((uintptr_t)(b - len)) & 7) == (off & 7)) q = b - len;      /* last byte just below the boundary */
+        if (g->toggle && g->data_pages >= 2 && len >= 2 && q >= g->data + CANARY && q < b && q + len >= b && q + len + CANARY <= end) p = q;
         g->can_seed = junk;
         memset(p - CANARY, (int)(0xA5 ^ junk), CANARY);
         memset(p + len, (int)(0x5A ^ junk), CANARY);
@@ -423,6 +424,37 @@ static inline int gb_classify(const gbuf_t *g, const void *addr)
 #  define GUARD_TRY() (1)
 #  define GUARD_END() ((void)0)
 #endif
+
+/* ---------------------------------------------------------------- corpus of rare-internal-value inputs
+ * model/pinned/special.txt (searched with the model only, see model/mine.c); the engine passes its path in
+ * $VERIF_SPECIAL.  One entry per line: kind, then fields (hex strings / decimal numbers), last the pattern name. */
+typedef struct { char line[1400]; char *tok[10]; int ntok; } special_t;
+static inline FILE *special_open(void) { const char *p = getenv("VERIF_SPECIAL"); return p && *p ? fopen(p, "r") : NULL; }
+static inline int special_next(FILE *f, special_t *s)
+{
+    while (fgets(s->line, sizeof s->line, f)) {
+        char *p = s->line;
+        s->ntok = 0;
+        while (*p && s->ntok < 10) {
+            while (*p == ' ' || *p == '\n' || *p == '\r') *p++ = 0;
+            if (!*p) break;
+            s->tok[s->ntok++] = p;
+            while (*p && *p != ' ' && *p != '\n' && *p != '\r') ++p;
+        }
+        if (s->ntok >= 3 && s->tok[0][0] != '#') return 1;
+    }
+    return 0;
+}
+static inline size_t special_unhex(const char *h, uint8_t *out, size_t cap)
+{
+    size_t n = 0;
+    while (h[0] && h[1] && n < cap) {
+        int a = h[0] <= '9' ? h[0] - '0' : (h[0] | 32) - 'a' + 10, b = h[1] <= '9' ? h[1] - '0' : (h[1] | 32) - 'a' + 10;
+        out[n++] = (uint8_t)(a * 16 + b);
+        h += 2;
+    }
+    return n;
+}
 
 /* ---------------------------------------------------------------- arguments */
 
